@@ -178,10 +178,18 @@ def shards(ctx):
 
 # ---------------------------------------------------------------------------------------------------------------
 # stubs, builder, parser, walker
-class Leaf:
-    """Stub conditional instruction: prints its letter, neg() toggles it."""
+def _leaf_base():
+    from androguard.decompiler.instruction import IRForm
+    return IRForm
+
+
+class _LeafMixin:
+    """Stub conditional instruction: prints its letter, neg() toggles it.
+    The stub derives from the real IRForm base class (see make_leaf) so that every method the decompiler may call on an
+    instruction (has_side_effect, is_call, ...) answers with the IRForm defaults instead of raising AttributeError."""
 
     def __init__(self, name):
+        super().__init__()
         self.name = name
         self.negated = False
 
@@ -196,6 +204,15 @@ class Leaf:
 
     def get_lhs(self):
         return None
+
+
+_LEAF = []
+
+
+def Leaf(name):
+    if not _LEAF:
+        _LEAF.append(type("Leaf", (_LeafMixin, _leaf_base()), {}))
+    return _LEAF[0](name)
 
 
 def build(k, edges, pre=False):
